@@ -187,7 +187,8 @@ type kv interface {
 	write(key, v string)
 	remove(key string)
 	get(key string) []string // values found at exactly this key
-	count() int              // -1 if the store has no Count
+	count() int              // only meaningful if hasCount()
+	hasCount() bool
 	iterate() []string
 	dump() []byte
 	load([]byte)
@@ -205,7 +206,8 @@ func (x *topicsKV) get(key string) []string {
 	}
 	return res
 }
-func (x *topicsKV) count() int { return x.t.Count() }
+func (x *topicsKV) count() int     { return x.t.Count() }
+func (x *topicsKV) hasCount() bool { return true }
 func (x *topicsKV) iterate() []string {
 	res := []string{}
 	x.t.Iterate(func(b []byte) { res = append(res, string(b)) })
@@ -229,7 +231,8 @@ func (x *subsKV) get(key string) []string {
 	})
 	return res
 }
-func (x *subsKV) count() int { return -1 }
+func (x *subsKV) count() int     { return 0 }
+func (x *subsKV) hasCount() bool { return false }
 func (x *subsKV) iterate() []string {
 	res := []string{}
 	x.t.Iterate(func(b []byte) { res = append(res, string(b)) })
@@ -298,7 +301,7 @@ func runStore(r *rec.Recorder, n int, s scenario) {
 		if it == nil {
 			it = []string{}
 		}
-		r.Emit(rec.Ev{"op": "probe", "vals": vals, "count": cnt, "iter": it, "panic": pn})
+		r.Emit(rec.Ev{"op": "probe", "vals": vals, "count": cnt, "hascount": x.hasCount(), "iter": it, "panic": pn})
 		if pn {
 			return
 		}
